@@ -1,13 +1,21 @@
 #!/bin/sh
-# run every seeded change against the check of its property; results -> /verif/seeded/RESULTS.txt
+# run every seeded change (rounds m* and n*) against the check of its property; results -> /verif/seeded/RESULTS.txt
+# pass 1 without the Kani / native harnesses (fast); a change that survives pass 1 is re-run with them.
+# NOTE: mutates /repo while running and overwrites /verif/evidence: regenerate the evidence on the clean tree afterwards.
 out=/verif/seeded/RESULTS.txt
 : > $out
-for d in /verif/seeded/C*/m*; do
+for d in /verif/seeded/C*/[mn]*; do
   p=$(basename $(dirname $d)); m=$(basename $d)
   [ -f $d/patch.diff ] || continue
-  res=$(SEED_ARGS="$SEED_ARGS" /verif/seedrun.sh $d/patch.diff $p 2>&1 | grep -vE "^WARNING")
+  how=verus
+  res=$(SEED_ARGS="--no-kani" /verif/seedrun.sh $d/patch.diff $p 2>&1 | grep -vE "^WARNING")
   rc=$(echo "$res" | grep -oE "rc=[0-9]+" | tail -1)
+  if [ "$rc" = "rc=0" ] || [ "$p" = "C16" ]; then
+    how=verus+kani+native
+    res=$(SEED_ARGS="" /verif/seedrun.sh $d/patch.diff $p 2>&1 | grep -vE "^WARNING")
+    rc=$(echo "$res" | grep -oE "rc=[0-9]+" | tail -1)
+  fi
   obl=$(echo "$res" | grep -E "^failed obligation|^UNDECIDED" | cut -c1-160 | tr '\n' ';')
-  echo "$p/$m $rc :: $obl" >> $out
+  echo "$p/$m $rc [$how] :: $obl" >> $out
 done
 echo done >> $out
